@@ -39,6 +39,7 @@ SHAPES = [
 def make_scenario(rng, shape):
     nb, styles, table = shape
     scn = gen.gen_s1(rng, nboards=nb, table=table)
+    scn['prelude'] = None
     # force a bid on 'short' boards so that they are played
     script = []
     for b, st in zip(scn['boards'], styles):
